@@ -52,7 +52,7 @@ CHECKS = {
             "The randomness source is owned by the simulator (one integer decides every draw), the statement is distributional; each seeded parameter setting is judged per step and cumulatively with wide deterministic bands. Sampling over D, Dz, dt, dx, dy over several decades.",
             "Bands of 6.5 standard errors; normality not tested; analytic plug-in grid/forcing are stubs.",
             "DESIGN.md section 6, C11"),
-    "C13": ("exploration", "deterministic simulation of the model clock: the real TimeKeeper stepped through update() against an integer-second reference clock; whole runs under every period spelling; malformed spellings injected into the configuration (start-up fault)",
+    "C13": ("exploration", "deterministic simulation of the model clock: the real TimeKeeper stepped through update() (also after being positioned at step 0 the way Model does for a warm start) against an integer-second reference clock; whole runs under every period spelling; malformed spellings injected into the configuration (start-up fault)",
             "The clock every module reads is stepped for every step of seeded histories in both directions and all conversions are compared with integer arithmetic; spelling equivalence is decided by identical runs, rejection by start-up refusal.",
             "One-second lattice; the malformed catalogue listed in ladsim/oracles/c13.py.",
             "DESIGN.md section 6, C13"),
